@@ -150,7 +150,8 @@ pub fn presentation(rng: &mut Rng, name: &[u8], trailing_dot: bool) -> String {
             let special = matches!(c, b'.' | b'\\' | b'"' | b';' | b'(' | b')' | b'@' | b'$' | b' ');
             if !printable || rng.chance(1, 12) {
                 s.push_str(&format!("\\{:03}", c));
-            } else if special || (rng.chance(1, 12) && !c.is_ascii_digit()) {
+            } else if special || (rng.chance(1, 12) && !c.is_ascii_digit() && c != b'#') {
+                // ('\\#' is the RFC 3597 generic-RDATA marker, never written for a label)
                 s.push('\\');
                 s.push(c as char);
             } else {
